@@ -59,12 +59,28 @@ func runC05(c *Ctx, r *Report, tier string) {
 	// ---- CLEAR
 	cn := c.fname(cd)
 	pdLit := "Option.preventDefault(P0)"
+	// the gate may sit in front of the call instead of inside: every caller reaches clearDefault only under
+	// ¬preventDefault of the very option it calls it on
+	gateAtCallers := false
+	if sites, _ := c.callersOf(cd); len(sites) > 0 {
+		gateAtCallers = true
+		for _, cs := range sites {
+			recv := c.term(cs.Call.Common().Args[0])
+			if _, ok := c.Requires(cs.Fn, isInstr(cs.Call), litIs("Option.preventDefault("+recv+")", false), nil); !ok {
+				gateAtCallers = false
+			}
+		}
+	}
 	for _, b := range c.blocks(cd) {
 		for _, in := range b.Instrs {
 			switch x := in.(type) {
 			case ssa.CallInstruction:
 				n := c.calleeName(x.Common())
 				if n == "(*Option).setDefault" || n == "(*Option).empty" || n == "os.LookupEnv" {
+					if gateAtCallers {
+						r.OK("CLEAR", cn, "call "+n, c.ipos(in), "clearDefault is reached only under ¬preventDefault (tested by every caller on the same option)")
+						continue
+					}
 					c.reqRule(r, "CLEAR", cd, in, "call "+n, litHas(false, pdLit), "¬preventDefault", nil)
 				}
 			}
